@@ -316,6 +316,8 @@ HOLE_SETS = {
     'lshape': lambda ny, nx: ({(0, 0), (1, 0), (0, 1)} & {(j, i) for j in range(ny) for i in range(nx)})
     if ny * nx > 3 else set(),
     'first': lambda ny, nx: {(0, i) for i in range(min(2, nx))} if ny > 1 else set(),
+    # a cell with missing neighbours on both sides along one axis (a river one cell wide)
+    'channel': lambda ny, nx: {(1, 0), (1, 2)} if ny >= 2 and nx >= 3 else set(),
     # everything is missing except a small block in the far corner (many cells, few vertices)
     'mostlyland': lambda ny, nx: {(j, i) for j in range(ny) for i in range(nx) if not (j >= ny - 2 and i >= nx - 3)}
     if ny * nx > 6 else set(),
@@ -1018,7 +1020,7 @@ def grid_kind_object(truth: Truth, kind: str):
 # call under test.  None of these operations changes what the dataset describes, so the reference
 # answers (Truth) are those of the freshly built dataset.
 
-HISTORY_OPS = ('warm', 'copy', 'deepcopy', 'pickle', 'reopen', 'chunk')
+HISTORY_OPS = ('warm', 'copy', 'deepcopy', 'pickle', 'reopen', 'chunk', 'clipped')
 
 
 def warm(ds: xr.Dataset, truth) -> None:
@@ -1072,6 +1074,17 @@ def apply_history(ds: xr.Dataset, truth, ops) -> xr.Dataset:
             with env_scratch() as tmp:
                 with reopen(ds, tmp, 'history.nc') as opened:
                     ds = opened.load()
+        elif op == 'clipped':
+            # the dataset has been clipped (to a region covering all of it) and the result thrown away
+            import shapely
+            import warnings
+            with env_scratch() as tmp, warnings.catch_warnings():
+                warnings.simplefilter('ignore')
+                try:
+                    everything = shapely.box(*shapely.union_all([p for p in ds.ems.polygons if p is not None]).buffer(1).bounds)
+                    ds.ems.clip(everything, tmp).load()
+                except Exception:  # noqa: BLE001  (a defect in clipping itself is for C08 / C09 to report)
+                    pass
         elif op == 'chunk':
             # every variable lazily loaded, as after open_mfdataset: coordinates too
             ds = ds.chunk()
@@ -1099,12 +1112,13 @@ def history_specs(tier: str) -> list[dict]:
         {'family': 'cf2d', 'ny': 2, 'nx': 3, 'geometry': 'skew', 'bounds': 'stored', 'decoy': True, 'explicit_names': True},
     ]
     if tier == 'quick':
-        histories = [[op] for op in HISTORY_OPS] + [['warm', 'copy'], ['reopen', 'warm'], ['chunk', 'warm']]
+        histories = [[op] for op in HISTORY_OPS] + [['warm', 'copy'], ['reopen', 'warm'], ['chunk', 'warm'], ['clipped', 'copy']]
     else:
         histories = [[op] for op in HISTORY_OPS] + [list(h) for h in itertools.product(HISTORY_OPS, repeat=2)]
     # a convention bound by hand stays with its dataset object (and travels in its pickle); datasets derived
     # from it are detected afresh, so only histories that keep the object apply
-    keeps_binding = (['warm'], ['pickle'], ['warm', 'pickle'], ['pickle', 'warm'], ['pickle', 'pickle'], ['warm', 'warm'])
+    keeps_binding = (['warm'], ['pickle'], ['clipped'], ['warm', 'pickle'], ['pickle', 'warm'], ['pickle', 'pickle'], ['warm', 'warm'],
+                     ['clipped', 'pickle'], ['clipped', 'warm'])
     return [dict(base, history=h) for base in bases for h in histories
             if not base.get('explicit_names') or h in [list(k) for k in keeps_binding]]
 
